@@ -566,3 +566,19 @@ def item_path(v, loop_node):
     if n is loop_node:
         return path
     return None
+
+
+def loop_early_exits(fn):
+    """[(Loop, exit_site)]: non-error exits (Ok / plain value) reachable from a loop body without passing the loop header again,
+    i.e. a `break` / early `return Ok(..)` that abandons the remaining items"""
+    out = []
+    sites = cfg.exit_sites(fn)
+    for lp in next_loops(fn):
+        for d in lp.body_entries:
+            r = cfg.reachable(fn, [d], removed_blocks=[lp.bb])
+            for e in sites:
+                if e["kind"] in ("Err", "residual", "None"):
+                    continue
+                if e["bb"] in r:
+                    out.append((lp, e))
+    return out
